@@ -43,6 +43,9 @@ def systematic():
     out.append({"steps": pre + [{"op": "sync", "k": 0}, {"op": "outage"}, {"op": "mutate_offline", "user": "alice"},
                                 {"op": "mutate_offline", "user": "carol"}, {"op": "recover"}, {"op": "save", "user": "alice"},
                                 {"op": "sync", "k": 0}], "origin": "outage"})
+    out.append({"steps": pre + [{"op": "sync", "k": 0}, {"op": "save", "user": "carol"}, {"op": "save", "user": "alice"}, {"op": "outage"},
+                                {"op": "mutate_offline", "user": "carol"}, {"op": "mutate_offline", "user": "alice"}, {"op": "recover"},
+                                {"op": "sync", "k": 0}], "origin": "outage-with-unsynced-changes"})
     out.append({"steps": pre + [{"op": "expire", "user": "bob"}, {"op": "sync", "k": 0}, {"op": "cleanup"}, {"op": "sync", "k": 0}],
                 "origin": "expiry"})
     return out
